@@ -1,0 +1,76 @@
+//! Verification hooks (cargo feature `verif-hooks`, off by default).
+//!
+//! Add-only instrumentation used by the external verification harness:
+//!  * an iteration budget that replaces the gas-based decision of
+//!    `can_continue_operation` (the debug VM does not meter gas);
+//!  * a tap on `Random`: forced fresh seeds, scripted raw draws and a record
+//!    of every (seed, index, raw draw) consumed.
+//!
+//! State is thread-local, so parallel harness workers do not interfere.
+//! With the feature off this module is not compiled at all.
+
+extern crate std;
+
+use std::cell::RefCell;
+use std::collections::VecDeque;
+use std::vec::Vec;
+
+#[derive(Default)]
+pub struct Hooks {
+    /// `Some(k)`: allow exactly `k` further "continue" decisions, then interrupt.
+    /// `None`: fall through to the original gas-based decision.
+    pub budget: Option<u64>,
+    /// Number of times `can_continue_operation` was asked (per arm/reset).
+    pub continue_queries: u64,
+    /// Seeds handed out, in order, to `Random::default()`; empty = use the chain's randomness.
+    pub forced_seeds: VecDeque<[u8; 32]>,
+    /// Number of `Random::default()` calls seen.
+    pub fresh_randoms: u64,
+    /// Raw values substituted, in order, for the results of `Random::next_usize`.
+    pub script: VecDeque<u32>,
+    /// Every draw: (seed bytes before the draw, index before the draw, raw value returned).
+    pub draws: Vec<(Vec<u8>, usize, usize)>,
+}
+
+std::thread_local! {
+    static HOOKS: RefCell<Hooks> = RefCell::new(Hooks::default());
+}
+
+pub fn with<R>(f: impl FnOnce(&mut Hooks) -> R) -> R {
+    HOOKS.with(|h| f(&mut h.borrow_mut()))
+}
+
+/// Decision for `can_continue_operation`, if a budget is armed.
+pub fn budget_decision() -> Option<bool> {
+    with(|h| {
+        h.continue_queries += 1;
+        match h.budget {
+            None => None,
+            Some(0) => Some(false),
+            Some(k) => {
+                h.budget = Some(k - 1);
+                Some(true)
+            }
+        }
+    })
+}
+
+/// Next forced seed for `Random::default()`, if any is armed.
+pub fn forced_seed() -> Option<[u8; 32]> {
+    with(|h| {
+        h.fresh_randoms += 1;
+        h.forced_seeds.pop_front()
+    })
+}
+
+/// Records a draw and substitutes the scripted raw value, if a script is armed.
+pub fn tap_draw(seed_before: Vec<u8>, index_before: usize, raw: usize) -> usize {
+    with(|h| {
+        let raw = match h.script.pop_front() {
+            Some(v) => v as usize,
+            None => raw,
+        };
+        h.draws.push((seed_before, index_before, raw));
+        raw
+    })
+}
